@@ -72,6 +72,11 @@ SK = {
     'default-int1-qualified-schema-like-integration': ("SELECT * FROM {A}.int2.tbl1 AS a JOIN {B}.tbl2 AS b ON a.id = b.id", {'int1': {'tbl1'}, 'int2': {'tbl2'}}, [], None, {'default_namespace': 'int1'}),
     'default-int1-qualified-schema-like-files': ("SELECT * FROM {A}.files.f1 AS a JOIN {B}.tbl2 AS b ON a.id = b.id", {'int1': {'f1'}, 'int2': {'tbl2'}}, [], None, {'default_namespace': 'int1'}),
     'default-int1-qualified-schema-like-project-model-join': ("SELECT * FROM {A}.mindsdb.tbl1 AS a JOIN {M}.pred AS m", {'int1': {'tbl1'}}, [('mindsdb', ['pred'])], None, {'default_namespace': 'int1'}),
+    # a FROM sub-query whose outer query holds another sub-query (WHERE / select list) on another integration, or a model inside the FROM sub-query
+    'from-subquery-where-subquery': ("SELECT * FROM (SELECT * FROM {A}.tbl1) AS x WHERE x.a IN (SELECT b FROM {B}.tbl2)", {'int1': {'tbl1'}, 'int2': {'tbl2'}}, []),
+    'from-subquery-target-subquery': ("SELECT x.a, (SELECT max(b) FROM {B}.tbl2) AS m FROM (SELECT * FROM {A}.tbl1) AS x", {'int1': {'tbl1'}, 'int2': {'tbl2'}}, []),
+    'from-subquery-where-subquery-same-integration': ("SELECT * FROM (SELECT a, id FROM {A}.tbl1 WHERE a > 1) AS x WHERE x.id NOT IN (SELECT id FROM {A}.tbl3) AND x.a > 0", {'int1': {'tbl1', 'tbl3'}}, []),
+    'from-model-subquery-where-subquery': ("SELECT * FROM (SELECT t.a, m.p FROM {A}.tbl1 AS t JOIN {M}.pred AS m) AS x WHERE x.a IN (SELECT b FROM {B}.tbl2)", {'int1': {'tbl1'}, 'int2': {'tbl2'}}, [('mindsdb', ['pred'])]),
     'two-models': ("SELECT * FROM {A}.tbl1 AS t JOIN {M}.pred AS m JOIN {P}.pred2 AS m2", {'int1': {'tbl1'}}, [('mindsdb', ['pred']), ('proj', ['pred2'])]),
     'select-from-model': ("SELECT p FROM {M}.pred WHERE x = 1", {}, [('mindsdb', ['pred'])]),
     'ts-model-join': ("SELECT * FROM {A}.tbl1 AS t JOIN {M}.tspred AS m WHERE t.ts > LATEST", {'int1': {'tbl1'}}, [('mindsdb', ['tspred'])]),
